@@ -11,9 +11,11 @@ where
     let Some(var_type) = lhs.mut_element_type() else {
         return false;
     };
-    let can_be_used = can_be_used(&var_type, &rhs);
+    if !can_be_used(&var_type, &rhs) {
+        return false;
+    }
     let return_type = return_type(&var_type, &rhs);
-    can_be_used && lhs.can_store(&return_type)
+    lhs.can_store(&return_type)
 }
 
 pub fn exec<T: FnOnce(Variable, Variable) -> Variable>(
